@@ -100,6 +100,7 @@ InOrderHolds  == [][PayloadsInOrderUnchanged']_mcvars
 ForgetFinalClose == pc = "resp" /\ blk = "none" /\ pc' = "done" /\ last' = [L0 EXCEPT !.a = "return", !.fin = TRUE]
                     /\ UNCHANGED <<ver, maxq, w, gone, gcode, blk, mon, got, n, na, h, pad>>
 WrongNext == XNext \/ ForgetFinalClose
+WrongTrue == TRUE      \* MC_WebSocketWrong2.cfg: FailedCloseStartsPumpInHandshake <- WrongTrue
 
 (* behaviour export: one JSON object per finished (or depth-bounded) behaviour *)
 Emit == (pc = "done" \/ Len(h) = Depth) => PrintT(ToJson([ver |-> ver, maxq |-> maxq, ev |-> h]))
